@@ -7,7 +7,7 @@ PROPERTY = "C09"
 
 IDENTITY = ["subvariant", "type", "format", "arch", "disc_number", "unified", "additional_variants"]
 CELLS = [("Server", "x86_64"), ("Server", "aarch64"), ("Workstation", "x86_64")]
-ADDITIONAL = [[], ["Client"], ["Client", "Server"]]
+ADDITIONAL = [[], ["Client"], ["Client", "Server"], ["Workstation", "Client"]]          # the last one is not in sorted order: the list is kept as given
 
 
 def make_image(sym, im, i, unified_choice, second_type=False):
@@ -173,7 +173,7 @@ def jobs(tier, seed):
     pres = [[0], [0, 0], [0, 1], [2, 0]] + ([[0, 1, 2], [0, 0, 0]] if big else [])
     for pi, pre in enumerate(pres):
         for new_cell in ((0, 1, 2) if big else (0, 2)):
-            for u in (((0,) * 4, (1, 1, 1, 1), (1, 2, 1, 2), (0, 1, 0, 1)) if big else ((0,) * 4, (1, 2, 1, 1))):
+            for u in (((0,) * 4, (1, 1, 1, 1), (1, 2, 1, 2), (0, 1, 0, 1), (3, 3, 1, 3), (2, 3, 3, 2)) if big else ((0,) * 4, (1, 2, 1, 1), (3, 2, 3, 3))):
                 out.append({"harness": "add_step", "params": {"pre_cells": pre, "new_cell": new_cell, "unified": list(u), "versioned": False}})
         out.append({"harness": "add_step", "params": {"pre_cells": pre, "new_cell": (pi + seed) % 3, "unified": [0, 0, 0, 0], "versioned": True}})
         for md5 in ([True, False, True, False], [False, True, False, True], [True, True, True, True]):
@@ -181,7 +181,7 @@ def jobs(tier, seed):
     for cell2 in (0, 1, 2):
         for wu in (False, True):
             out.append({"harness": "load_collision", "params": {"cell2": cell2, "with_unified": wu}})
-    for uc in (0, 1, 2):
+    for uc in (0, 1, 2, 3):
         for dd in (False, True):
             out.append({"harness": "identity_object_vs_dict", "params": {"unified_choice": uc, "drop_defaults": dd and uc == 0}})
     return out
